@@ -3,6 +3,7 @@
 from __future__ import annotations
 
 import ast
+import re
 from collections import deque
 
 from .. import terms as tm
@@ -43,7 +44,11 @@ def chord_re(ctx, rule):
     if not (isinstance(node, ast.Call) and ast.unparse(node.func) in ("re.compile",) and node.args):
         raise AnalysisError(rule, "CHORD_RE is not re.compile(<literal>)")
     if len(node.args) > 1 or node.keywords:
-        raise AnalysisError(rule, "CHORD_RE is compiled with flags")
+        flags = " ".join(ast.unparse(x) for x in list(node.args[1:]) + [k.value for k in node.keywords])
+        if "IGNORECASE" in flags or re.search(r"\bre\.I\b", flags):
+            ctx.cache["c10_re_flags"] = flags
+        else:
+            raise AnalysisError(rule, "CHORD_RE is compiled with flags (%s)" % flags)
     try:
         pat = ast.literal_eval(node.args[0])
     except Exception:
@@ -67,7 +72,7 @@ def chord_re(ctx, rule):
     return ctx.cache[key]
 
 
-def rule_grammar(ctx):
+def _rule_grammar_inner(ctx):
     A, pat, use, method = chord_re(ctx, "C10.GRAMMAR")
     f = ctx.program.func("chord.validate_chord_label")
     s = ctx.S.get(f.qual)
@@ -466,6 +471,72 @@ def rule_bitmapguard(ctx):
     yield ob(R, f, "chord.scale_degree_to_bitmap:modulo-default", okd and dv is False, "modulo defaults to %r" % (dv,))
 
 
+def rule_grammar(ctx):
+    chord_re(ctx, "C10.GRAMMAR")
+    if ctx.cache.get("c10_re_flags"):
+        f = ctx.program.func("chord.validate_chord_label", "C10.GRAMMAR")
+        yield ob("C10.GRAMMAR", f, "chord.CHORD_RE:language", False, "CHORD_RE is compiled with %s: the Harte grammar is case-sensitive (pitch names A-G, qualities in lower case, N/X), so labels such as 'c:maj' or 'n' are accepted although they are outside the documented grammar" % ctx.cache["c10_re_flags"])
+        return
+    yield from _rule_grammar_inner(ctx)
+
+
+def rule_degreeparse(ctx):
+    """scale_degree_to_semitone looks the degree up after removing exactly its leading accidentals: strip/lstrip of the
+    accidental character, or a slice from the (non-negative) number of accidentals."""
+    R = "C10.DEGREEPARSE"
+    f = ctx.program.func("chord.scale_degree_to_semitone", R)
+    s = ctx.S.get(f.qual)
+    gets = [c for c in s.calls() if c.method == "get" and c.base is not None and c.base.op == "glob" and c.base.a[0] == "chord.SCALE_DEGREES"]
+    need(len(gets) == 1 and gets[0].args, R, "scale_degree_to_semitone: SCALE_DEGREES.get lookup not found")
+    key = gets[0].args[0]
+    P = tm.param("scale_degree")
+    alts = resolve_ite_free(key)
+    bad = []
+    for a in alts:
+        if a is P:
+            continue
+        if a.op == "call" and call_name(a) in (".strip", ".lstrip") and len(a.a[1]) == 2 and a.a[1][0] is P and a.a[1][1].op == "const" and a.a[1][1].a[0] in ("#", "b"):
+            continue
+        if a.op == "sub" and a.a[0] is P and a.a[1].op == "slice":
+            lo, hi, st = a.a[1].a
+            cnt = lo.op == "call" and call_name(lo) == ".count" and lo.a[1][0] is P
+            if cnt and tm.is_const(hi, None) and tm.is_const(st, None):
+                continue
+        bad.append(tm.show(a, 4))
+    yield ob(R, f, "chord.scale_degree_to_semitone:lookup-key", not bad, "the degree is looked up with its leading accidentals removed (%d alternative forms)" % len(alts) if not bad else "the looked-up degree is %s: not the label minus its leading accidentals (a negative or shifted slice start drops digits instead)" % "; ".join(bad), node=gets[0].node)
+    # offset sign: sharps add, flats subtract
+    rets = [r for r in s.returns]
+    need(rets, R, "scale_degree_to_semitone: return not found")
+    t = rets[-1].term
+    sharp = any(x.op == "call" and call_name(x) == ".count" and x.a[1][1].op == "const" and x.a[1][1].a[0] == "#" for x in tm.walk(t))
+    flat_neg = any((x.op == "bin" and x.a[0] == "*" and any(tm.is_const(z, -1) for z in x.a[1:]) and any(z.op == "call" and call_name(z) == ".count" and z.a[1][1].op == "const" and z.a[1][1].a[0] == "b" for z in x.a[1:])) or (x.op == "un" and x.a[0] == "-" and x.a[1].op == "call" and call_name(x.a[1]) == ".count" and x.a[1].a[1][1].a[0] == "b") for x in tm.walk(t))
+    yield ob(R, f, "chord.scale_degree_to_semitone:offset-sign", sharp and flat_neg, "semitone = table value + (#sharps) or - (#flats)")
+
+
+def rule_strictbass(ctx):
+    """encode(strict_bass_intervals=True) tests the bass against the *final* interval set: the bitmap that is tested is
+    the binarised bitmap after all added/omitted degrees, the same one that is returned."""
+    R = "C10.STRICTBASS"
+    f = ctx.program.func("chord.encode", R)
+    s = ctx.S.get(f.qual)
+    rs = [r for r in s.by_kind("raise") if any("strict_bass_intervals" in tm.params_of(c) for c, _ in symeval.pc_conds(r.pc))]
+    need(len(rs) == 1, R, "encode: strict bass raise not found")
+    tested = None
+    for c, pol in symeval.pc_conds(rs[0].pc):
+        for x in tm.walk(c):
+            if x.op == "sub" and x.a[0].op != "param" and any(y.op == "call" and call_name(y) == "chord.quality_to_bitmap" for y in tm.walk(x.a[0])):
+                tested = x.a[0]
+    need(tested is not None, R, "encode: tested bitmap not found")
+    final = any(y.op == "call" and call_name(y) == "astype" for y in tm.walk(tested)) and any(y.op in ("loop", "loopvar") for y in tm.walk(tested))
+    yield ob(R, f, "chord.encode:strict-tests-final-bitmap", final, "the strict check reads the binarised bitmap after the loop over added/omitted degrees" if final else "the strict check reads %s: the bitmap before the added/omitted degrees are applied (a bass that an addition introduces is rejected, one that an omission removes is accepted)" % tm.show(tested, 3), node=rs[0].node)
+    normal = [r for r in s.returns if r.term.op == "tuple" and len(r.term.a) == 3]
+    need(normal, R, "encode: normal return not found")
+    base = normal[-1].term.a[1]
+    while base.op == "upd":
+        base = base.a[0]
+    yield ob(R, f, "chord.encode:strict-tests-returned-bitmap", base is tested, "the tested bitmap is the returned one before the bass bit is set")
+
+
 RULES = [
     ("C10.GRAMMAR", 3, rule_grammar),
     ("C10.SPLITSAFE", 5, rule_splitsafe),
@@ -475,4 +546,6 @@ RULES = [
     ("C10.JOINFORM", 2, rule_joinform),
     ("C10.TABLESAFE", 9, rule_tablesafe),
     ("C10.BITMAPGUARD", 3, rule_bitmapguard),
+    ("C10.DEGREEPARSE", 2, rule_degreeparse),
+    ("C10.STRICTBASS", 2, rule_strictbass),
 ]
